@@ -20,7 +20,7 @@ RULE = ("all multisets of rows (x, group, label) with one discrete feature of k 
         "non-trivial = some constraint is active at the unconstrained optimum; distinct = distinct (dataset)")
 ASSUMPTIONS = ["scipy HiGHS is used only as reference optimum for each enumerated instance (tolerance 1e-7)",
                "hypothesis class = all 2^k functions of the discrete feature, so the exact learner really is exact and constants are in the class"]
-CLASSES = ["lp_step_off", "max_iter_1", "ratio_bound", "three_groups"]
+CLASSES = ["label_equals_group", "lp_step_off", "max_iter_1", "ratio_bound", "three_groups"]
 # classes whose occurrence depends on implementation internals (reported, warned about when absent, never a hard vacuity error)
 SOFT_CLASSES = ["support_not_a_sorted_prefix", "early_stop", "mixture_of_several", "constraint_active"]
 
@@ -52,8 +52,18 @@ def _unsorted_cases(tier, seed):
         yield {"rows": spec["rows"], "tier": tier, "seed": seed, "set": "unsorted", "spec": [spec["moment"], spec["bound"], spec["eps"]]}
 
 
+def _degenerate_cases(tier, seed):
+    """labels perfectly correlated with the group (and with the only feature): the relabelled best-response problem collapses to a
+    constant, so the oracle's constant-classifier shortcut is taken repeatedly, with both constants, within one fit."""
+    sizes = [(1, 2), (2, 1), (3, 7), (2, 5), (4, 4)] if tier == "quick" else [(p, q) for p in range(1, 8) for q in range(1, 8)]
+    for na, nb in sizes:
+        rows = [[0, "a", 1]] * na + [[1, "b", 0]] * nb
+        yield {"rows": rows, "tier": tier, "seed": seed, "set": "degenerate"}
+
+
 def cases(tier, seed):
     yield from _unsorted_cases(tier, seed)
+    yield from _degenerate_cases(tier, seed)
     if tier == "quick":
         for rows in _datasets(2, 2, (3,)):
             yield {"rows": rows, "tier": tier, "seed": seed, "set": "full"}
@@ -114,6 +124,9 @@ def run_case(case):
     plan = [(name, spec) for name in PARITY for spec in BSPECS]
     if case["set"] == "unsorted":
         plan = [(case["spec"][0], ("diff", case["spec"][1], None))]
+    if case["set"] == "degenerate":
+        out["classes"].add("label_equals_group")
+        plan = [(nm, sp) for nm in ("DemographicParity", "ErrorRateParity", "EqualizedOdds") for sp in (("ratio", 0.8, 0.05), ("ratio", 0.8, 0.0), ("diff", 0.1, None))]
     for name, spec in plan:
         if True:
             _, ratio, slack = make_bound(getattr(red, name), spec)
@@ -130,6 +143,8 @@ def run_case(case):
                 out["classes"].add("ratio_bound")
             if case["set"] == "unsorted":
                 cfgs = [dict(eps=case["spec"][2], max_iter=12, run_linprog_step=False, eta0=2.0, nu=None)]
+            elif case["set"] == "degenerate":
+                cfgs = [dict(eps=0.05, max_iter=50, run_linprog_step=True, eta0=2.0, nu=None), dict(eps=0.05, max_iter=20, run_linprog_step=False, eta0=2.0, nu=None)]
             elif tier == "quick":  # quick: all deviations only for DemographicParity / difference 0.1, base configuration elsewhere
                 cfgs = _configs(tier, case["set"] if (name == "DemographicParity" and spec == BSPECS[1]) else "base")
             else:
